@@ -77,6 +77,31 @@ fn compile_seq<W: Write>(matrix: &[u8], csv: &[u8], w: &mut W, seq: u8) -> Resul
     b.compile(w).map_err(|e| format!("compile: {:?}", e))
 }
 
+/// Longer call sequences over the same inputs:
+/// 5: lexicon in two parts with resolve() between them and none afterwards; 6: the same with a second resolve();
+/// 7: a second read_conn() with a smaller matrix whose text breaks off, error ignored.
+fn compile_multi<W: Write>(matrix: &[u8], csv_a: &[u8], csv_b: &[u8], w: &mut W, seq: u8) -> Result<(), String> {
+    let mut b = DictBuilder::new_system();
+    b.set_compile_time(std::time::UNIX_EPOCH + std::time::Duration::from_secs(env::FIXED_TIME_SECS));
+    b.read_conn(matrix).map_err(|e| format!("conn: {:?}", e))?;
+    if seq == 7 {
+        let _ = b.read_conn(&b"1 1\n0 0 7\n0 x\n"[..]);
+    }
+    b.read_lexicon(csv_a).map_err(|e| format!("lexicon: {:?}", e))?;
+    if seq == 7 {
+        b.read_lexicon(csv_b).map_err(|e| format!("lexicon: {:?}", e))?;
+        b.resolve().map_err(|e| format!("resolve: {:?}", e))?;
+        return b.compile(w).map_err(|e| format!("compile: {:?}", e));
+    }
+    // references to rows of the second part cannot be resolved yet: that error is not the point here
+    let _ = b.resolve();
+    b.read_lexicon(csv_b).map_err(|e| format!("lexicon: {:?}", e))?;
+    if seq == 6 {
+        b.resolve().map_err(|e| format!("resolve: {:?}", e))?;
+    }
+    b.compile(w).map_err(|e| format!("compile: {:?}", e))
+}
+
 #[derive(Clone, Debug, PartialEq)]
 enum Expect {
     Either,
@@ -518,6 +543,38 @@ pub fn run(ctx: &Ctx, rep: &mut Report) {
                     rep.count("compilations_without_matrix_accepted", 1);
                     if let Err((kind, site, msg)) = arbiter(&res, &sink, &[], &keys, false, rep) {
                         rep.violation(&kind, &site, &format!("compile() of a system dictionary without read_conn() reports success: {}", msg), "", scen0());
+                    }
+                }
+            }
+        }
+
+        // the lexicon offered in two parts, with resolve() in between; a second, broken matrix
+        if lex.entries.len() >= 2 {
+            let cut = 1 + rng.below(lex.entries.len() - 1);
+            let part = |r: std::ops::Range<usize>| lex.entries[r].iter().map(|e| lex.row_csv(e, None) + "\n").collect::<String>();
+            let (ca, cb) = (part(0..cut), part(cut..lex.entries.len()));
+            for seq in [5u8, 6, 7] {
+                rep.eval();
+                let mut sink = Vec::new();
+                let what = match seq {
+                    5 => "read_lexicon(part 1), resolve(), read_lexicon(part 2), compile()",
+                    6 => "read_lexicon(part 1), resolve(), read_lexicon(part 2), resolve(), compile()",
+                    _ => "read_conn(matrix), read_conn(smaller matrix whose text breaks off; error ignored), read_lexicon, resolve(), compile()",
+                };
+                let scen = || json!({"world_index": wi, "call_sequence": what, "matrix": mtext, "lexicon_part_1": ca, "lexicon_part_2": cb});
+                match guard(|| compile_multi(mtext.as_bytes(), ca.as_bytes(), cb.as_bytes(), &mut sink, seq)) {
+                    Err(p) => rep.violation("compile_panic", &p.site, &format!("call sequence {}: {}", what, p.msg), "", scen()),
+                    Ok(Err(e)) => {
+                        rep.count("longer_call_sequences_rejected", 1);
+                        if seq == 6 {
+                            rep.violation("valid_input_rejected", "DictBuilder::compile", &format!("call sequence {} fails although the same rows compile in one piece: {}", what, clip(&e, 200)), "", scen());
+                        }
+                    }
+                    Ok(Ok(())) => {
+                        rep.count("longer_call_sequences_accepted", 1);
+                        if let Err((kind, site, msg)) = arbiter(&res, &sink, &[], &keys, false, rep) {
+                            rep.violation(&kind, &site, &format!("call sequence {} reports success: {}", what, msg), "", scen());
+                        }
                     }
                 }
             }
